@@ -381,6 +381,22 @@ def acting(U, rep, tier):
   rep.check(ok and same(final.f['obs'], cur.f['obs']), 'R15.5', 'generate_unroll chains observation -> next observation with split keys',
             'recorded transitions do not chain (state or PRNG key threading is wrong)', where=fg.where(),
             construct='carry = (nstate, next_key); actor_step consumes current_key')
+  # the same chaining THROUGH the training wrappers (Episode + AutoReset, symbolic termination flags and time limit): what
+  # is recorded as the successor of step t is what step t+1 observes -- also across an episode end, whether the episode
+  # terminated or was cut by the time limit (for every schedule at once: the flags are atoms)
+  for ar in ((1,) if tier == 'quick' else (1, 2)):
+    I2 = new_interp(U.repo)
+    S2 = Script(I2)
+    w = mk(I2, 'AutoResetWrapper', mk(I2, 'EpisodeWrapper', S2.env(), sym('L'), ar))
+    ws0 = I2.apply(I2.attr(w, 'reset'), [symarr('key', (2,))], {})
+    T2 = 3
+    final2, data2 = I2.apply(fn(AC, 'generate_unroll'), [w, clone(ws0), ('prim', 'policy', policy), key, T2], {})
+    okc = all(same(data2.f['next_observation'][t], data2.f['observation'][t + 1]) for t in range(T2 - 1)) and same(
+        data2.f['next_observation'][T2 - 1], final2.f['obs']) and same(data2.f['observation'][0], ws0.f['obs'])
+    rep.check(okc, 'R15.5', 'generate_unroll over wrap(Episode, AutoReset), action_repeat=%d: next_observation[t] is observation[t+1]' % ar,
+              'through the training wrappers the recorded transitions do not chain: the successor recorded for a step is not the '
+              'observation the next step starts from (across an episode end or a time-limit cut)', where=fg.where(),
+              construct='symbolic done flags and episode_length: every termination / truncation schedule at once')
   # Evaluator: EvalWrapper, unroll_length = episode_length // action_repeat
   fe = U.func(AC + '.Evaluator.__init__')
   src = fe.node
